@@ -122,6 +122,89 @@ func ruleR27R28(c *Ctx) {
 		}
 		// every yield call must be the atom of a guard
 		guarded := map[*ast.CallExpr]bool{}
+		// a yield call inside a larger condition (`left == 0 || !yield(k, v)`): with yield = false
+		// the condition may still have a definite value, which names the edge taken
+		for _, b := range g.Blocks {
+			if !b.Live || len(b.Succs) != 2 {
+				continue
+			}
+			cond := condOf(info, b)
+			if cond == nil {
+				continue
+			}
+			var ycall *ast.CallExpr
+			ast.Inspect(cond, func(z ast.Node) bool {
+				if call := isYieldCall(z); call != nil {
+					ycall = call
+				}
+				return true
+			})
+			if ycall == nil || isYieldCall(ast.Unparen(c.m.throughLocals(u, cond))) != nil {
+				continue // the plain form is handled below
+			}
+			if be, ok := ast.Unparen(cond).(*ast.UnaryExpr); ok && be.Op == token.NOT && isYieldCall(ast.Unparen(be.X)) != nil {
+				continue
+			}
+			// three-valued evaluation with yield() = false
+			var eval func(e ast.Expr) int // 1 true, 0 false, -1 unknown
+			eval = func(e ast.Expr) int {
+				e = ast.Unparen(e)
+				if isYieldCall(e) == ycall {
+					return 0
+				}
+				switch x := e.(type) {
+				case *ast.UnaryExpr:
+					if x.Op == token.NOT {
+						switch eval(x.X) {
+						case 1:
+							return 0
+						case 0:
+							return 1
+						}
+					}
+				case *ast.BinaryExpr:
+					l, r := eval(x.X), eval(x.Y)
+					switch x.Op {
+					case token.LOR:
+						if l == 1 || r == 1 {
+							return 1
+						}
+						if l == 0 && r == 0 {
+							return 0
+						}
+					case token.LAND:
+						if l == 0 || r == 0 {
+							return 0
+						}
+						if l == 1 && r == 1 {
+							return 1
+						}
+					}
+				}
+				return -1
+			}
+			v := eval(cond)
+			if v == -1 {
+				continue
+			}
+			succ := 0
+			if v == 0 {
+				succ = 1
+			}
+			guarded[ycall] = true
+			key := fmt.Sprintf("%s stop after yield returned false", u.Name)
+			bad := false
+			for rb := range reachable(b.Succs[succ]) {
+				if hasYield(rb) {
+					bad = true
+				}
+			}
+			if bad {
+				c.r.bad("R28", key, c.m.pos(ycall.Pos()), "a yield call is reachable after this yield call returned false", props...)
+			} else {
+				c.r.ok("R28", key, c.m.pos(ycall.Pos()), "with yield = false the enclosing condition is decided and its edge reaches the function exit without another yield call", props...)
+			}
+		}
 		for _, gd := range guardsOf(info, g) {
 			call := isYieldCall(ast.Unparen(c.m.throughLocals(u, gd.atom.e)))
 			if call == nil || gd.atom.val {
@@ -349,7 +432,9 @@ func ruleR35(c *Ctx) {
 						hc = c.defCallOf(u, lv)
 					}
 				}
-				if hc == nil || m.calleeName(hc) != helper || len(hc.Args) != 1 || !c.isTreeRoot(hc.Args[0]) {
+				if hc == nil {
+					okAll, why = false, "the restored leaf is not the result of "+helper+"(t.root)"
+				} else if op, ok := m.helperOperand(hc, helper); !ok || !c.isTreeRoot(op) {
 					okAll, why = false, "the restored leaf is not the result of "+helper+"(t.root)"
 				}
 			}
@@ -427,7 +512,7 @@ func ruleR35(c *Ctx) {
 	// always has a least and a greatest leaf, so any other nil result makes Minimum/Maximum
 	// disagree with the first/last element of iteration
 	for _, name := range []string{"minimum", "maximum"} {
-		u := m.ByName[name]
+		u := m.unitByBase(name)
 		if u == nil {
 			continue
 		}
